@@ -41,7 +41,7 @@ class C01(Prop):
             "(n)/(p,s), and a subset in random order of NULL|NOT NULL, DEFAULT v, PRIMARY KEY, UNIQUE, REFERENCES "
             "[s.]t (c) [ON DELETE a] [ON UPDATE a]; half canonical text, half drawn layout/keyword case; "
             "non-trivial = a table with >= 2 columns and a column carrying >= 2 options; distinct = SHA-1 of the case")
-    budgets = {"quick": 6000, "thorough": 200000}
+    budgets = {"quick": 6000, "thorough": 60000}
     assumptions = [
         "core fragment only: defaults are quoted strings (K1-K4-safe alphabet), unsigned integers, decimals, -n, NULL, "
         "TRUE/FALSE, words and f(); referential actions CASCADE/RESTRICT (two-word actions are known finding K9)",
@@ -49,7 +49,7 @@ class C01(Prop):
     ]
 
     def strategy(self, tier):
-        return case_strategy(4, 8) if tier == "quick" else case_strategy(12, 40)
+        return case_strategy(4, 8) if tier == "quick" else case_strategy(8, 30)
 
     def fixed_cases(self):
         col = lambda n, t, s, *o: {"name": n, "type": t, "size": s, "opts": [list(x) for x in o]}
